@@ -180,6 +180,18 @@ class C15(Prop):
         yield {"k": "seg", "seg": {"k": "C", "p": [[0.000201467208, -0.000417999709], [0.0, 29.016025641462], [0.0, -5.221532497467], [0.0, 0.0]]},
                "err": 1e-6, "M": isometry(rng), "s": 2.0}
         n = 260 if tier == "quick" else 2000
+        for i in range(max(40, n // 6)):
+            # gently bowed quadratics: the control point a fraction r of the chord away from the chord's midpoint, in any
+            # direction. The closed form is accurate to a few 1e-12 of the length here (measured), the chord is short by
+            # (2/3) r^2 - so a shortcut that returns the chord too early shows
+            L = 10 ** rng.uniform(-1, 5)
+            th = rng.uniform(0, 2 * math.pi)
+            s0 = [round(rng.uniform(-500, 500), 3), round(rng.uniform(-500, 500), 3)]
+            e0 = [s0[0] + L * math.cos(th), s0[1] + L * math.sin(th)]
+            r = 10 ** rng.uniform(-5, -3)
+            ph = rng.uniform(0, 2 * math.pi)
+            c0 = [(s0[0] + e0[0]) / 2 + r * L * math.cos(ph), (s0[1] + e0[1]) / 2 + r * L * math.sin(ph)]
+            yield {"k": "seg", "seg": {"k": "Q", "p": [s0, c0, e0]}, "err": None, "M": isometry(rng), "s": 2.0, "bowed": r}
         for i in range(n):
             # the recursion's cost grows like (size/error)^(1/3) per call and each case makes four calls: small errors on
             # small curves only, the default error (1e-12) only on lines and quadratics (closed forms)
@@ -212,6 +224,41 @@ class C15(Prop):
             curved = any(d["k"] in "CA" for d in segs)
             yield {"k": "path", "start": start, "segs": segs, "err": rng.choice(ERRORS[:4] if curved else ERRORS + [None]), "ts": ts,
                    "bnd": rng.random() < 0.5}
+        for i in range(max(30, n // 8)):
+            # paths of segments whose length is exact (lines, quadratics, zero-radius and zero-extent arcs), transformed IN PLACE
+            # by a similarity: the length must scale by exactly the factor, whatever the object shares internally
+            cur = geo.pt(rng, 200)
+            start = cur
+            segs = []
+            for j in range(rng.randint(1, 5)):
+                nxt = geo.near(cur, rng, 40.0)
+                r = rng.random()
+                if r < 0.4:
+                    segs.append({"k": "A", "p": [cur, nxt], "rx": rng.choice([0.0, 7.5]), "ry": rng.choice([0.0, 0.0, 3.0]),
+                                 "rot": float(rng.choice([0, 30, 90])), "fa": rng.randint(0, 1), "fs": rng.randint(0, 1)})
+                    if segs[-1]["rx"] and segs[-1]["ry"]:
+                        segs[-1]["p"][1] = list(cur)          # zero extent instead
+                        nxt = cur
+                elif r < 0.7:
+                    segs.append({"k": "L", "p": [cur, nxt]})
+                else:
+                    segs.append({"k": "Q", "p": [cur, geo.near(cur, rng, 40.0), nxt]})
+                cur = nxt
+            f = round(10 ** rng.uniform(-0.7, 0.7), 3)
+            th = rng.uniform(0, 2 * math.pi)
+            sg = rng.choice([1.0, -1.0])
+            hist = [f * math.cos(th), f * math.sin(th), -sg * f * math.sin(th), sg * f * math.cos(th), round(rng.uniform(-30, 30), 2), round(rng.uniform(-30, 30), 2)]
+            # built the way a document is: parsed from path data (the constructor route copies every segment first)
+            d = "M%r,%r" % tuple(start)
+            for sg in segs:
+                if sg["k"] == "L":
+                    d += " L%r,%r" % tuple(sg["p"][1])
+                elif sg["k"] == "Q":
+                    d += " Q%r,%r %r,%r" % (tuple(sg["p"][1]) + tuple(sg["p"][2]))
+                else:
+                    d += " A%r %r %r %d %d %r,%r" % ((sg["rx"], sg["ry"], sg["rot"], sg["fa"], sg["fs"]) + tuple(sg["p"][1]))
+            yield {"k": "path", "start": start, "segs": segs, "err": None, "ts": [0.0, 1.0, 0.5], "bnd": False, "hist": hist, "sim": f,
+                   "d": d if rng.random() < 0.7 else None}
         for i in range(n // 5):
             yield {"k": "shape", "shape": rng.choice(["rect", "rrect", "circle", "ellipse", "polygon", "polyline", "line"]),
                    "a": [round(rng.uniform(-200, 200), 2) for _ in range(4)] + [round(rng.uniform(0.5, 300), 2) for _ in range(4)],
@@ -254,7 +301,7 @@ class C15(Prop):
                 return obs
             if case["k"] == "path":
                 segs = [Move(Point(*case["start"]))] + [geo.build(d) for d in case["segs"]]
-                p = Path(*segs)
+                p = Path(case["d"]) if case.get("d") else Path(*segs)
             else:
                 a = case["a"]
                 k = case["shape"]
@@ -382,6 +429,8 @@ class C15(Prop):
         p = d["p"]
         size = max([1.0] + [abs(c) for q in p for c in q])
         fl = (4e-9 if k == "Q" else 1e-9) * max(size, L)            # float noise on the inputs' scale
+        if case.get("bowed"):
+            fl = 2e-11 * max(size, L)                               # no cancellation in this family (control near the midpoint)
         fs = self.spec_failures
         if L != L or L < 0 or math.isinf(L):
             fs.append(Failure(what="length is %r" % L, case=case))
@@ -432,6 +481,9 @@ class C15(Prop):
             if abs(h["again"] - h["fresh"]) > 1e-9 * max(1.0, abs(h["fresh"])):
                 fs.append(Failure(what="after an in-place transform and reify, length() of the object that had been measured before is "
                                        "%r; a freshly built equal object gives %r" % (h["again"], h["fresh"]), case=case))
+            elif case.get("sim") and abs(h["again"] - case["sim"] * obs["length"]) > 1e-9 * max(1.0, case["sim"] * obs["length"]):
+                fs.append(Failure(what="length %r, after an in-place similarity of factor %r and reify, is %r instead of %r"
+                                       % (obs["length"], case["sim"], h["again"], case["sim"] * obs["length"]), case=case))
             elif h["pt_again"] is not None and h["pt_fresh"] is not None and \
                     max(abs(a - b) for a, b in zip(h["pt_again"], h["pt_fresh"])) > 1e-9 * max(1.0, abs(h["fresh"])):
                 fs.append(Failure(what="after an in-place transform and reify, point(0.37) is %r; a freshly built equal object gives %r"
